@@ -2,7 +2,10 @@ package main
 
 import (
 	"flag"
+	"fmt"
 	"os"
+	"path/filepath"
+	"strings"
 )
 
 // extractCmd regenerates lean/Verif/Gen/*.lean from the current /repo tree.
@@ -14,10 +17,33 @@ func extractCmd(args []string) {
 	if err := os.MkdirAll(*out, 0o755); err != nil {
 		fatal("extract: %v", err)
 	}
-	for _, g := range generators {
-		g(*out, *repo)
+	// every generator runs on its own: one that can no longer read its fact off the tree is reported in
+	// FAILED.txt (one line per generator: the files it would have written, then the reason) and leaves
+	// its files unwritten; the others still regenerate theirs
+	var failed []string
+	for i, g := range generators {
+		func() {
+			extracting = true
+			defer func() {
+				extracting = false
+				if r := recover(); r != nil {
+					msg := fmt.Sprint(r)
+					if ef, ok := r.(extractFailure); ok {
+						msg = ef.msg
+					}
+					failed = append(failed, generatorFiles[i]+"\t"+strings.ReplaceAll(msg, "\n", " "))
+				}
+			}()
+			g(*out, *repo)
+		}()
+	}
+	if len(failed) > 0 {
+		_ = os.WriteFile(filepath.Join(*out, "FAILED.txt"), []byte(strings.Join(failed, "\n")+"\n"), 0o644)
 	}
 }
+
+// generatorFiles[i]: the Gen files of generators[i] (comma separated), in registration order
+var generatorFiles []string
 
 // generators write one Gen/*.lean file each.
 var generators []func(outDir, repo string)
